@@ -422,8 +422,8 @@ func decode(thread *starlark.Thread, b *starlark.Builtin, args starlark.Tuple, k
 					closed = true
 					j++ // skip '"'
 					break
-				} else if b >= utf8.RuneSelf {
-					safe = false
+				} else if b >= utf8.RuneSelf || b < 0x20 {
+					safe = false // (control characters are rejected by json.Unmarshal)
 				}
 			}
 			if !closed {
